@@ -251,6 +251,32 @@ func (p *Prog) BlockingOps(fn *ssa.Function) []*BlockOp {
 				if ci, isCI := in.(ssa.CallInstruction); isCI && len(p.funcValueTargets(nil, ci)) > 0 {
 					continue // methods of the product handed on as values: visited through Reach
 				}
+				// a function-typed parameter that every call site feeds with a function literal of the
+				// product (FilterPriorities(dst, list, func(p uint) bool { ... })): the literals are
+				// visited through Reach like any other function of the goroutine
+				if par, isPar := cc.Value.(*ssa.Parameter); isPar && par.Parent() == fn {
+					idx := paramIndex(fn, par)
+					sites := p.CallSites(fn)
+					allLits := len(sites) > 0 && idx >= 0
+					for _, site := range sites {
+						args := site.Common().Args
+						if idx >= len(args) {
+							allLits = false
+							continue
+						}
+						mc, isMC := stripChangeType(args[idx]).(*ssa.MakeClosure)
+						if !isMC {
+							allLits = false
+							continue
+						}
+						if lf, isFn := mc.Fn.(*ssa.Function); !isFn || !p.IsProduct(lf) {
+							allLits = false
+						}
+					}
+					if allLits {
+						continue
+					}
+				}
 				out = append(out, &BlockOp{Fn: fn, In: in, Kind: "dyncall", Callee: cs.String(), Dyn: true})
 			}
 		}
